@@ -37,20 +37,23 @@ static void expect_tlv(const wd_frame *f, uint8_t type, const uint8_t *val, size
 }
 
 /* one Hello for the current attribute records; compares every property */
+static int IFX;        /* interface under test (1: the responder's second interface; interface 0 has other attributes and saw a frame first) */
 static void one(void) {
-    vf_iface *fi = &W.iface[0];
+    vf_iface *fi = &W.iface[IFX];
     vf_world_reset();
     pev d = ev_discover(0, ST_M1, ST_M1, 0x0102, 1);
+    if (IFX) { vf_trace_clear(); drv_linux(&d, 0); }
     vf_trace_clear();
-    drv_linux(&d, 0);
+    drv_linux(&d, IFX);
     evals++;
     const vf_trec *t = NULL; int sends = 0;
     for (uint32_t i = 0; i < W.ntrace; i++) if (W.trace[i].kind == VF_T_SEND) { t = &W.trace[i]; sends++; }
     if (sends != 1) { BAD("no-hello", "%d frames in answer to the Discover", sends); return; }
+    if (t->iface != IFX) { BAD("wrong-interface", "Hello for a Discover on interface %d handed to interface %u", IFX, t->iface); return; }
     wd_frame f; wd_decode(vf_trace_bytes + t->off, t->len, &f);
     if (f.opcode != 0x01 || !f.tlv_end_ok) { BAD("unparsable", "Hello property list does not parse to its end marker"); return; }
     { /* structure (C02's clauses) for every attribute tuple: host id first, legal lengths, no type twice, end marker last */
-      const char *why = wd_wellformed(&f, f.realsrc, W.iface[0].mtu > 1500 ? W.iface[0].mtu : 1500);
+      const char *why = wd_wellformed(&f, f.realsrc, W.iface[IFX].mtu > 1500 ? W.iface[IFX].mtu : 1500);
       if (why) { char cls[80]; snprintf(cls, sizeof cls, "structure:%s", why); BAD(cls, "Hello for this attribute tuple is not well-formed: %s", why); } }
     uint32_t fail = fi->fail | W.host.fail;
     uint8_t v[64];
@@ -99,16 +102,21 @@ static void one(void) {
 
 /* ------------------------------------------------------------ sweeps */
 static vf_iface base_if; static vf_host base_host;
-static void restore_base(int wifi) { W.iface[0] = base_if; W.host = base_host; W.iface[0].wifi = wifi; }
+static vf_iface other_if;        /* attributes of the interface that is NOT under test when IFX == 1 */
+static void set_attrs(vf_iface *dst, const vf_iface *src) { uint8_t *r = dst->recv; int id = dst->id; size_t pl = dst->recv_prev_len; *dst = *src; dst->recv = r; dst->id = id; dst->recv_prev_len = pl; }
+static void restore_base(int wifi) {
+    set_attrs(&W.iface[IFX], &base_if); W.host = base_host; W.iface[IFX].wifi = wifi;
+    if (IFX) set_attrs(&W.iface[0], &other_if);
+}
 
-static void cex_here(int a, int b, int c) { static int p[4]; p[0] = a; p[1] = b; p[2] = c; p[3] = W.iface[0].wifi; e1_manual_path(&pseudo, p, 4); }
+static void cex_here(int a, int b, int c) { static int p[4]; p[0] = a; p[1] = b; p[2] = c; p[3] = W.iface[IFX].wifi + 2 * IFX; e1_manual_path(&pseudo, p, 4); }
 
 static void fill_pattern(uint8_t *dst, size_t n, int pat) {
     for (size_t i = 0; i < n; i++) dst[i] = pat == 0 ? (uint8_t)('a' + i % 26) : pat == 1 ? (uint8_t)(0x80 + i) : (uint8_t)(i == 0 ? 0 : 0xC3);
 }
 
 static void sweep_grid(void) {
-    vf_iface *fi = &W.iface[0];
+    vf_iface *fi = &W.iface[IFX];
     cur_sweep = "flags";
     for (int w = 0; w < 2; w++) { restore_base(w); for (uint32_t v = 0; v < 65536; v++) { fi->flags = v; cex_here(1, (int)v, 0); one(); } }
     restore_base(1);
@@ -155,13 +163,13 @@ static void sweep_grid(void) {
 
 /* thorough: every 32-bit value through the three TLV writers */
 static void sweep_full(uint32_t lo24, uint32_t hi24) {
-    vf_iface *fi = &W.iface[0];
+    vf_iface *fi = &W.iface[IFX];
     uint8_t buf[64];
     cur_sweep = "u32-full";
     for (uint64_t v = (uint64_t)lo24 << 24; v < ((uint64_t)hi24 << 24); v++) {
         uint32_t x = (uint32_t)v;
         fi->iftype = x; fi->ipv4_be = x; fi->speed = x;
-        size_t n1 = setPhysicalMediumTLV(buf, 0, vf_ctx(0)), n2 = setIPv4TLV(buf, 8, vf_ctx(0)), n3 = setLinkSpeedTLV(buf, 16, vf_ctx(0));
+        size_t n1 = setPhysicalMediumTLV(buf, 0, vf_ctx(IFX)), n2 = setIPv4TLV(buf, 8, vf_ctx(IFX)), n3 = setLinkSpeedTLV(buf, 16, vf_ctx(IFX));
         evals += 3;
         uint32_t raw; memcpy(&raw, buf + 10, 4);
         if (n1 != 6 || buf[0] != 0x03 || buf[1] != 4 || be32(buf + 2) != x) { cex_here(8, (int)(x >> 16), (int)(x & 0xFFFF)); BAD("interface-type", "interface type 0x%08x encoded as %02x%02x%02x%02x", x, buf[2], buf[3], buf[4], buf[5]); }
@@ -176,8 +184,8 @@ static void ps_name(int ev, char *b, size_t cap) { snprintf(b, cap, "arg(%d)", e
 static void ps_root(void) { nst = 0; }
 static void ps_apply(int ev) {
     staged[nst++] = ev; if (nst < 4) return; nst = 0;
-    vf_iface *fi = &W.iface[0];
-    int k = staged[0], a = staged[1], b = staged[2]; restore_base(staged[3]);
+    vf_iface *fi = &W.iface[IFX];
+    int k = staged[0], a = staged[1], b = staged[2]; IFX = staged[3] / 2; restore_base(staged[3] & 1);
     uint32_t v32 = ((uint32_t)a << 16) | (uint32_t)b;
     static const uint32_t bits[12] = {VF_G_MAC, VF_G_IFTYPE, VF_G_IPV4, VF_G_IPV6, VF_G_SPEED, VF_G_BSSID, VF_G_SSID, VF_G_RATE, VF_G_RSSI, VF_G_HOSTNAME, VF_G_WIFIMODE, VF_G_MTU};
     switch (k) {
@@ -198,6 +206,7 @@ int main(int argc, char **argv) {
     vf_parse_args(argc, argv, "C04");
     vf_world_init(A.mtu, 0, (uint8_t)A.fill);
     base_if = W.iface[0]; base_host = W.host;
+    other_if = W.iface[0]; other_if.flags = 0x0800; other_if.iftype = 71; other_if.speed = 123456; other_if.ipv4_be = 0x01020304; memset(other_if.mac, 0x6e, 6); other_if.mac[0] = 0x02; memset(other_if.ipv6, 0x5c, 16); other_if.wifi = 1; other_if.rssi = -90; other_if.rate = 11; memcpy(other_if.ssid, "other", 5); other_if.ssid_len = 5;
     pseudo = (e1_cfg){ .nev = 1 << 17, .ev_name = ps_name, .apply = ps_apply, .root_setup = ps_root };
     if (A.replay) { A.verbose = 1; return e1_replay_file(&pseudo, A.replay); }
     double t0 = vf_now_s();
@@ -206,6 +215,7 @@ int main(int argc, char **argv) {
         vf_sample("interface type, IPv4, link speed: every 32-bit value in [0x%02lx000000, 0x%02lx000000) through setPhysicalMediumTLV / setIPv4TLV / setLinkSpeedTLV", A.a, A.b);
     } else {
         sweep_grid();
+        IFX = 1; sweep_grid(); IFX = 0;      /* the same sweeps on the responder's second interface (the first one has different attributes) */
         vf_sample("characteristics flags: all 65536 values (wired and Wi-Fi); Wi-Fi rate: all 65536; RSSI: all 256; mode: all 256");
         vf_sample("machine name / SSID: every length 0..40 x 3 byte patterns x 2 port return conventions; 4096 subsets of failing getters x wired/Wi-Fi");
         vf_sample("MAC/BSSID/IPv6: every byte position x 256 values x 2 backgrounds; ifType/IPv4/speed: {00,01,7F,80,FF}^4 grid + walking bits");
